@@ -4,7 +4,9 @@ import core
 RULE = ("cases = (address region of the target, offset in page incl. 1-4 bytes straddling into the next page, protection of that "
         "next page, where the only free page of the +/-128 MiB neighbourhood is, fake placement incl. byte-granular displacements "
         "around +/-2^31 from the trampoline, installation flavour); distinct = distinct (region, straddle bytes, next-page protection, "
-        "hole class, fake class, flavour) tuples that were decided (installed and called, or refused and checked untouched); "
+        "hole class, fake class, flavour) tuples that were decided (installed and called, or refused and checked untouched), plus the async "
+        "poll path on three real futures of the binary at natural placement and with the binary's own neighbourhood reserved except one hole "
+        "(first, -64 MiB, +64 MiB, last acceptable page); "
         "cases whose addresses the kernel would not map are inconclusive and not counted")
 
 
